@@ -51,6 +51,13 @@ fn h64(b: &[u8]) -> u64 {
     h.finish()
 }
 
+/// A writer that accepts at most `quota` bytes per call (short writes are allowed by `std::io::Write`).
+struct ShortWriter { got: Vec<u8>, quota: usize }
+impl std::io::Write for ShortWriter {
+    fn write(&mut self, buf: &[u8]) -> std::io::Result<usize> { let n = buf.len().min(self.quota); self.got.extend_from_slice(&buf[..n]); Ok(n) }
+    fn flush(&mut self) -> std::io::Result<()> { Ok(()) }
+}
+
 pub fn check_term(cx: &Ctx, t: &OwnedTerm, family: &str) {
     let rep = cx.rep;
     rep.add("evaluations", 1);
@@ -77,6 +84,16 @@ pub fn check_term(cx: &Ctx, t: &OwnedTerm, family: &str) {
     }
     if !want.is_leaf() && cx.seen.lock().unwrap().insert(h64(&enc)) {
         rep.add("distinct_nontrivial", 1);
+    }
+    // the streaming entry point must hand the writer exactly the same bytes, however little the writer takes per call
+    if enc.len() <= 4096 {
+        for quota in [1usize, 3, usize::MAX] {
+            let mut w = ShortWriter { got: vec![], quota };
+            match erltf::encode_to_writer(t, &mut w) {
+                Ok(()) if w.got == enc => {}
+                other => rep.violation("encode_to_writer output differs from encode", json!({"family": family, "value": want.short(), "writer_accepts_per_call": quota, "result": format!("{:?}", other.map_err(|e| e.to_string())), "written": w.got.len(), "expected": enc.len()})),
+            }
+        }
     }
     // independent reader
     match ref_decode(&enc) {
